@@ -596,7 +596,7 @@ TickAny(d) ==
 
 \* time is observable only through select timeouts, so the clock moves only while one is pending
 TimeoutPending == \E p \in Pids : /\ proc[p].live /\ proc[p].sel # None /\ proc[p].result = None
-                                   /\ \E i \in 1..Len(proc[p].sel[1].srcs) : proc[p].sel[1].srcs[i].k = "timeout"
+                                   /\ \E i \in 1..Len(proc[p].sel[1].srcs) : Fires(proc[p].sel[1].srcs[i])
 
 Tick(d) ==
   /\ TimeoutPending
